@@ -253,8 +253,64 @@ HAND = [
 ]
 
 
-def seeds(tier):
-    return generated(tier) + HAND
+def typed_seeds(tier, seed=0):
+    """One script per operator of the typed generator's table (ddv/typed.py):
+    the first depth-1 application of that operator, asserted, with the
+    declarations it needs.  Quick runs take a slice rotated by VERIF_SEED,
+    thorough runs take all."""
+    from . import sexp, typed
+    out, _ = typed.generate(1)
+    by_head = {}
+    for s, ts in out.items():
+        for t in ts:
+            if t.depth != 1 or isinstance(t.tree, str):
+                continue
+            h = t.tree[0]
+            key = h if isinstance(h, str) else ' '.join(h)
+            by_head.setdefault((key, repr(s)), (t, s))
+    decls = {sexp.serialize(d): d for d in typed.declarations()}
+    res = []
+    items = sorted(by_head.items())
+    if tier != 'thorough':
+        k = 8
+        items = items[seed % k::k]
+    for (key, _), (t, s) in items:
+        used = set(sexp.flat_tokens(t.tree))
+        need = [d for d in typed.declarations()
+                if d[0] in ('declare-sort', 'declare-datatype',
+                            'declare-datatypes')
+                or (len(d) > 1 and isinstance(d[1], str) and d[1] in used)]
+        if s == 'Bool':
+            body = t.tree
+        elif s == typed.REGLAN:
+            body = ['str.in_re', 's1', t.tree]
+            need.append(['declare-const', 's1', 'String'])
+        else:
+            body = ['=', t.tree, t.tree]
+        # drop datatype / sort declarations that are not needed
+        keep = []
+        for d in need:
+            if d[0] == 'declare-datatype' and not (used & {'nil', 'cons', 'hd',
+                                                          'tl', 'l1', 'l2'}):
+                continue
+            if d[0] == 'declare-datatypes' and not (used & {
+                    'dot', 'blob', 'circle', 'square', 'rad', 'side', 'tag',
+                    'ta', 'tb', 'tc', 'inner', 'cnt', 'sh1', 'sh2', 'tg1',
+                    'tg2'}):
+                continue
+            if d[0] == 'declare-sort' and not (used & {'u1', 'u2', 'uf'}):
+                continue
+            keep.append(d)
+        text = '\n'.join(sexp.serialize(d) for d in keep +
+                         [['assert', body]]) + '\n'
+        name = 'typed-' + key.replace(' ', '_') + '-' + \
+            sexp.serialize(typed.sort_text(s)).replace(' ', '_')
+        res.append((name, text))
+    return res
+
+
+def seeds(tier, seed=0):
+    return generated(tier) + HAND + typed_seeds(tier, seed)
 
 
 def selftest():
